@@ -20,7 +20,7 @@
 From Coq Require Import List NArith ZArith Bool Arith Lia Permutation DecimalFacts DecimalNat.
 From JV Require Bridge BridgeProofs.
 From JV Require Import HttpChan HttpChanProofs SameResults.
-From JV Require Import Bytes Msg CliModel CliLemmas CliInv CliProofs CliCtx CliOps CliHist CliSend CliFed SameResultsCli.
+From JV Require Import Bytes Msg CliModel CliLemmas CliInv CliProofs CliCtx CliOps CliHist CliSend CliFed CliNoStop SameResultsCli.
 Import ListNotations.
 
 (** * glue *)
@@ -270,4 +270,69 @@ Proof.
     - eexists; eexists. split; [reflexivity|]. split; [vm_compute; reflexivity|]. split; vm_compute; reflexivity. }
   vm_compute. repeat (split; [reflexivity|]).
   repeat split; auto 10.
+Qed.
+
+(** * against the Bridge the client does not stop unless it is closed *)
+Lemma bridge_answer_msgs inner next req st body : bridge_answer inner next req = Some (st, body) -> exists b ms, body = InMsgs b ms.
+Proof.
+  unfold bridge_answer. destruct (Bridge.sv_out _) as [| | | |st0 sh]; try discriminate. intros [= _ <-].
+  destruct sh; cbn; eauto.
+Qed.
+
+Lemma good_labels tr : Forall not_close tr -> Forall good_feed (feeds tr) -> Forall good_label tr.
+Proof.
+  induction tr as [|l tr IH]; cbn; intros H1 H2; constructor; inversion H1 as [|x y A1 A2]; subst.
+  - destruct l; cbn in *; auto. inversion H2; auto.
+  - apply IH; auto. unfold feeds in H2. cbn in H2. apply Forall_app in H2. apply H2.
+Qed.
+
+(* every reply handed to the client for a round trip answered by the Bridge is a parsed JSON record *)
+Lemma bridge_feed_good s htr body j :
+  bridge_round_trips s htr body -> j < n_send htr -> nonempty_reply htr j = true ->
+  good_feed (feed_of body (reply_of htr j)).
+Proof.
+  intros (sender & inner & next & bflag & Hin & Inj & Rt) Hj Hne.
+  destruct (Rt j Hj) as (o & st & Ho & Hs & Ea & Ed).
+  unfold feed_of, reply_of. cbn [fst snd]. unfold nonempty_reply in Hne. rewrite Ed in *. cbn in Hne.
+  destruct (bridge_status _ _ _ _ _ Ea) as [[-> _]|[-> _]]; [|discriminate]. cbn.
+  destruct (bridge_answer_msgs _ _ _ _ _ Ea) as (b & ms & ->). exists b, ms. reflexivity.
+Qed.
+
+Lemma bridge_feeds_good s htr hs body :
+  HttpChan.run HttpChan.init htr = Some hs -> ~ In HClose htr -> forallb is_done (gs hs) = true ->
+  bridge_round_trips s htr body ->
+  Forall good_feed (http_feeds body htr) /\ Forall good_feed (direct_feeds body htr).
+Proof.
+  intros R NC AD B.
+  assert (D : Forall good_feed (direct_feeds body htr)).
+  { unfold direct_feeds, direct_stream. rewrite map_map. apply Forall_forall. intros f Hf.
+    apply in_map_iff in Hf. destruct Hf as (j & <- & Hj). apply filter_In in Hj. destruct Hj as [Hj Hne].
+    apply in_seq in Hj. eapply bridge_feed_good; eauto. lia. }
+  split; auto.
+  unfold http_feeds, recv_stream. rewrite map_map. apply Forall_forall. intros f Hf.
+  apply in_map_iff in Hf. destruct Hf as (j & <- & Hj). apply (recvd_in _ _ R NC AD) in Hj.
+  apply filter_In in Hj. destruct Hj as [Hj Hne]. apply in_seq in Hj. eapply bridge_feed_good; eauto. lia.
+Qed.
+
+(* THE COMPOSED THEOREM without the premise "the client did not stop": neither run issues a Close.
+   (A Bridge answers 200 or 204 only, so jhttp.Channel never reports a transport error to the client.) *)
+Theorem same_results_bridge_open body htr hs c1 tr1 s1 c2 tr2 s2 :
+  HttpChan.run HttpChan.init htr = Some hs -> ~ In HClose htr -> forallb is_done (gs hs) = true ->
+  traces_to c1 tr1 s1 -> traces_to c2 tr2 s2 ->
+  feeds tr1 = http_feeds body htr -> feeds tr2 = direct_feeds body htr ->
+  bridge_round_trips s1 htr body ->
+  Forall not_close tr1 -> Forall not_close tr2 ->
+  forall n o1 o2, op_at s1 n = Some o1 -> op_at s2 n = Some o2 ->
+    o_ctx o1 = None -> o_ctx o2 = None ->
+    op_ids s1 n = op_ids s2 n ->
+    (forall r1 r2, In (ORet n (RetCall r1)) (hist s1) -> In (ORet n (RetCall r2)) (hist s2) -> r1 = r2)
+    /\ (forall rs1 rs2, In (ORet n (RetBatch rs1)) (hist s1) -> In (ORet n (RetBatch rs2)) (hist s2) -> rs1 = rs2).
+Proof.
+  intros R NC AD T1 T2 F1 F2 B C1 C2 n o1 o2 Ho1 Ho2 X1 X2 Ids.
+  destruct (bridge_feeds_good s1 htr hs body R NC AD B) as [G1 G2].
+  assert (E1 : err s1 = None).
+  { apply (never_closed_never_stops c1 tr1 s1 T1). apply good_labels; auto. rewrite F1. exact G1. }
+  assert (E2 : err s2 = None).
+  { apply (never_closed_never_stops c2 tr2 s2 T2). apply good_labels; auto. rewrite F2. exact G2. }
+  exact (same_results_bridge body htr hs c1 tr1 s1 c2 tr2 s2 R NC AD T1 T2 F1 F2 B n o1 o2 Ho1 Ho2 X1 X2 E1 E2 Ids).
 Qed.
